@@ -7,3 +7,4 @@ package l4regexp
 //@ func (m *MatchRegexp) Match(cx *layer4.Connection) (matched bool, err error)
 //@ requires wfm(cx)
 //@ safety C04
+//@ implements[C06] (m github.com/mholt/caddy-l4/layer4.ConnMatcher) Match
